@@ -1,35 +1,79 @@
 /-
 C09 — GridSearch trains a faithful best response per grid point and picks the argmin.
-Property theorems only; helper lemmas live in `Lemmas/Grid.lean`; the model is `Model/Grid.lean`.
+Property theorems only; helper lemmas live in `Lemmas/Grid.lean`, `Lemmas/GridMore.lean`, `Lemmas/C09Review.lean`;
+the model is `Model/Grid.lean` (defined over `Generated/GridSrc.lean`, lifted from the source on every run).
+Composition theorems (same namespace): `Properties/C09X.lean` — that is the module the check builds.
 
-Clauses of the property and where they are stated:
-  * "exactly grid_size ... multiplier vectors"           grid_exists, grid_length
-  * "distinct"                                             grid_distinct  (hypothesis `unitBasis`, evaluated by
-                                                           the driver on every case; it FAILS for EqualizedOdds
-                                                           data in which a non-last group lacks a label: F6,
-                                                           `grid_duplicates_without_unit_basis`)
-  * "non-negative", "L1 norm at most grid_limit"           grid_nonneg, grid_l1_le_limit
-  * the lattice behind them                                lattice_mem_iff (sound + complete), lattice_l1,
-                                                           lattice_nodup, lattice_size_grows, nUnits_least,
-                                                           lattice_length_le_cube
-  * "trains ... on the data relabelled and reweighted"     best_response, best_response_argmin
-  * "selected model minimises (1-cw)*objective+cw*max"     tradeoff_spec, argminFirst_spec, select_spec,
-                                                           runningArgmin_eq
-  * "predict/predict_proba delegate to exactly that model" predict_delegates
-  * the whole `for i in grid.columns` loop in one statement  fit_spec, fit_predictor_minimises_lagrangian
-  * TIE TO THE SOURCE (Generated/GridSrc.lean, lifted by harness/lifters/grid.py on every run): the model's
-    `srcLattice`/`accumulate`, `nUnits`, `searchFrom`, `grid`, `tradeoff`, `argminFirst`, `relabel` are DEFINED
-    over the lifted expressions; `source_lattice_eq`, `source_accumulate_eq` (+ the `_def` bridge lemmas of
-    `Lemmas/Grid.lean`) show they are the closed forms the theorems here talk about.
-  * the float starting point of the search             estimate_harmless, search_from_any_start,
-                                                           overshoot_grid_still_valid
-  * order of the enumeration, truncation = prefix          lattice_lex_sorted, truncation_keeps_least
-  * the zero vector                                        zero_mem_lattice_iff, zero_point_gives_zero_lambda,
-                                                           zero_lambda_mem_grid_iff, forced_grid_excludes_zero
-  * force_L1_norm: L1 norm exactly grid_limit               forced_grid_l1_eq_limit
-  * grid_offset                                            grid_offset_distinct
+CLAUSE → THEOREM TABLE (review R3; property text in properties.jsonl, id C09)
+  (a) "GridSearch.fit produces exactly grid_size distinct non-negative multiplier vectors whose L1 norm is at most
+       grid_limit"                                                                                        FULL, under
+       the stated hypotheses: `grid_clause_from_any_start` (ONE statement, for the `while True` loop as the source
+       runs it, started at ANY estimate `n0`: succeeds, `n_units ≥ 1`, exactly grid_size vectors, pairwise distinct,
+       entries ≥ 0, L1 norm ≤ grid_limit — the bound is proved for the vector AFTER the pos/neg basis map, not only
+       for the lattice point).  Hypotheses, each needed:
+         * `2 ≤ grid_size`: for grid_size ∈ {0, 1} the source raises ZeroDivisionError (`float(grid_limit)/n_units`
+           with n_units = 0) — `grid_size_le_one_raises` (replayed: corpus/C09/gen-grid-size-1-zero-division.json);
+         * `1 ≤ trueDim` (a coordinate stays free): with true_dim = 0 (one basis column and force_L1_norm, i.e.
+           BoundedGroupLoss on ONE group; or DemographicParity on one group: no column at all) the source raises
+           ZeroDivisionError already in the estimate `1.0 / true_dim`, BEFORE the loop; the estimate is an INPUT of the
+           model, so `Grid.grid` still answers there (`trueDim_zero_model_answers`): the single-clause theorems
+           `grid_length`, `grid_nonneg`, `grid_l1_le_limit`, `grid_distinct` (which do not assume `1 ≤ trueDim`) describe
+           the loop, not the estimate.  Outside the quantifier (2..4 groups);
+         * `0 < grid_limit` (grid_limit = 0: grid_size copies of the zero vector);
+         * `basisOK` (0 ≤ entries, column sums ≤ 1) for sign and L1 bound, `unitBasis` for distinctness: both are
+           evaluated by the driver on the bases of EVERY fitted moment.  `unitBasis` holds for DP / ERP / BGL always and
+           for EO / TPR / FPR unless a non-last group lacks a label — finding F6, `grid_duplicates_without_unit_basis`.
+       Pieces: grid_exists, grid_length, grid_mem, grid_nonneg, grid_l1_le_limit, grid_distinct; the lattice behind them:
+       lattice_mem_iff (sound + complete), lattice_l1, lattice_nodup, lattice_lex_sorted, truncation_keeps_least,
+       lattice_size_grows, nUnits_least, lattice_length_le_cube; float start of the search: search_from_any_start,
+       estimate_le_least, estimate_harmless (no overshoot ⇒ the SAME grid as from the least radius),
+       overshoot_grid_still_valid (any start: coarser, every clause still holds); force_L1_norm:
+       forced_grid_l1_eq_limit; zero vector: zero_mem_lattice_iff, zero_point_gives_zero_lambda,
+       zero_lambda_mem_grid_iff, forced_grid_excludes_zero; grid_offset: grid_offset_distinct (count + distinctness
+       only: sign and L1 bound are FALSE for a shifted grid and not claimed).
+  (b) "trains one predictor per vector on the data relabelled and reweighted for that vector (so with an exact
+       cost-sensitive learner each predictor minimises error + lambda.gamma over the hypothesis class)"
+       FULL for the five parity moments: `C09.fit_trains_real_lagrangian_minimisers` (C09X.lean): in the loop `fitLoop`
+       run with `Moments.signedWeights` and the ErrorRate weights, every trained predictor (DummyClassifier shortcut
+       included) minimises the REAL `Oracle.lagr = error + λ·γ` of ITS OWN λ over the class; one grid point:
+       `fit_predictor_minimises_real_lagrangian`.  "Exact learner" is the hypothesis `hex` (weighted 0/1 error on the
+       relabelled data minimal over H); `xLearner_exact` shows a concrete learner meets it for every weight vector.
+       Abstract forms: best_response (weighted error = Σ max(w,0) − Σ wᵢhᵢ; needs equal lengths — `weighted01`
+       truncates like zip — and 0/1 labels), best_response_argmin_hard, fit_predictor_minimises_lagrangian_hard,
+       fit_spec.  NOTE `best_response_argmin` / `fit_predictor_minimises_lagrangian` assume the affine form of `F` for
+       EVERY list of naturals; the real error + λ·γ has it only on 0/1 labelings of the right length
+       (`affine_everywhere_excludes_zero_one_error`), so those two cannot be instantiated with it — the `_hard`
+       versions can, and are.
+       Rows of combined weight exactly 0 get label 0 and weight 0 (`relabel`; label irrelevant: C07.zero_weight_label_
+       irrelevant).  All labels equal ⇒ DummyClassifier: `trainAt`, covered by `trainAt_minimises`.  All weights 0 ⇒
+       sklearn's DummyClassifier raises ValueError: finding F12, not modelled (the model trains the constant 0:
+       `all_zero_weights_take_dummy_branch` locates the shape).
+       BoundedGroupLoss (`is_classification_reduction = False`: `y_reduction = y`, weights not abs'ed) is NOT a branch
+       of `fitLoop` (PARTIAL there: the check feeds the model the BGL weights signed by the label, so that `relabel`
+       returns (y, w) — correspondence only); the clause itself is proved for that column of `GridSearch.fit` as modelled
+       by C07 (`Oracle.callGridLoss`, over Generated/OracleSrc.lean): `C09.bgl_grid_point_minimises_lambda_gamma`
+       (C09X.lean, from `C07.loss_grid_identity`): labels unchanged, weights `signed_weights(λ)`, a minimiser of the
+       weighted loss over H minimises `λ·γ` over H.
+  (c) "records for each predictor the objective and constraint values that its predictions really have"
+       FULL in the model: fit_spec (`out.objectives = out.preds.map objOf ∧ out.gammas = out.preds.map gamOf` with
+       `out.preds` the trained labelings: the records are functions of the RECORDED predictor, position by position);
+       with `gamOf` = `Moments.gamma`: fit_selected_gammaLe (C09X).  That `objective.gamma` / `constraints.gamma` are
+       called on `current_estimator.predict` is the lifter's shape check + the oracle comparison `C09.records`.
+  (d) "The selected model minimises (1-constraint_weight)*objective + constraint_weight*max(gamma) over the trained
+       predictors"    FULL: tradeoff_spec, maxL_spec, argminFirst_spec (in range, minimal, FIRST index), select_spec,
+       runningArgmin_eq, fit_spec (last conjunct), C09X.selected_minimises_tradeoff; any rational cw (the constructor
+       rejects cw ∉ [0,1]: not modelled, theorems need no range).  `select` = none exactly for an empty record list
+       (source: `min([])` ValueError) or an empty gamma vector (source: NaN loss, best_idx_ = 0 — not modelled, cannot
+       occur with ≥ 1 group): `select_eq_none_iff`.
+  (e) "predict/predict_proba delegate to exactly that model"   FULL: predict_delegates (`predictWith` is generic in the
+       method `run`: one theorem for `predict` and `predict_proba`; the lifter checks both methods read
+       `self.predictors_[self.best_idx_]`).
+  TIE TO THE SOURCE (Generated/GridSrc.lean): `srcLattice`/`accumulate`, `nUnits`, `searchFrom`, `grid`, `gridFrom`,
+    `tradeoff`, `argminFirst`, `relabel`, `combineWeights`, `trainAt` are DEFINED over the lifted expressions;
+    `source_lattice_eq`, `source_accumulate_eq`, `source_lattice_mem_iff` (+ the `_def` bridge lemmas of
+    `Lemmas/Grid.lean`) show they are the closed forms the theorems talk about.
 -/
-import FairModel.Lemmas.GridMore
+import FairModel.Lemmas.C09Review
 
 namespace C09
 open Grid
@@ -281,7 +325,10 @@ theorem best_response (w : List Rat) (h : List Nat) (hl : w.length = h.length)
 /-- Best response, part 2: for ANY objective of the form `F h = K − c · Σ w_i h_i` with `c > 0` (the
     reduction identity of C07 gives `error + λ·γ` this form with `c = 1/n`, `w = signed weights`), a
     labeling has smaller weighted 0/1 error on the relabelled data iff it has smaller `F`; hence a
-    learner that minimises the weighted 0/1 error over a class minimises `F` over that class. -/
+    learner that minimises the weighted 0/1 error over a class minimises `F` over that class.
+    REVIEW R3: `hF` asks for the affine form on EVERY list of naturals; the real `error + λ·γ` has it only on 0/1
+    labelings with one label per row (`affine_everywhere_excludes_zero_one_error`), so this statement cannot be
+    instantiated with it — use `best_response_argmin_hard` (same conclusion, `hF` guarded). -/
 theorem best_response_argmin (w : List Rat) (K c : Rat) (hc : 0 < c) (F : List Nat → Rat)
     (hF : ∀ h, F h = K - c * dot w (toRat h))
     (h h' : List Nat) (hl : w.length = h.length) (hl' : w.length = h'.length)
@@ -542,7 +589,10 @@ theorem fit_spec (span : Bool) (cwOf : List Rat → List Rat) (ow : List Rat)
     rw [← hl]; simp only [List.map_map]; rfl
 
 /-- … hence (reduction identity of C07: `error + λ·γ = K − c·Σ wᵢhᵢ`, `c > 0`, `w` = the combined signed weights)
-    every trained predictor minimises `error + λ·γ` of its own multiplier over the class. -/
+    every trained predictor minimises `error + λ·γ` of its own multiplier over the class.
+    REVIEW R3: same remark as for `best_response_argmin` — the unguarded `hF` is not satisfiable by the real Lagrangian;
+    `fit_predictor_minimises_lagrangian_hard` is the guarded form and `C09.fit_predictor_minimises_real_lagrangian`
+    (C09X.lean) its instance for `Oracle.lagr` (ErrorRate objective + `λ·γ` of a parity moment). -/
 theorem fit_predictor_minimises_lagrangian (learner : List (Nat × Rat) → List Nat) (H : List Nat → Prop)
     (w : List Rat) (K c : Rat) (hc : 0 < c) (F : List Nat → Rat)
     (hF : ∀ h, F h = K - c * dot w (toRat h))
@@ -555,6 +605,201 @@ theorem fit_predictor_minimises_lagrangian (learner : List (Nat × Rat) → List
   obtain ⟨hl', hb'⟩ := hH h' hh'
   exact (best_response_argmin w K c hc F hF _ h' hl.symm hl' hb hb').mp
     (trainAt_minimises learner H w hex h' hh')
+
+/-! ## Review R3: error branches, clause (a) in one statement, guarded best-response theorems -/
+
+/-- ERROR BRANCH of clause (a): for `grid_size ∈ {0, 1}` one lattice point is enough, the search stops at
+    `n_units = 0`, and `float(grid_limit) / n_units` raises ZeroDivisionError — whatever the dimension, the bases and
+    the limit; both for the least-radius search and for the loop started at the source's estimate (which is 0 there).
+    Replayed on fairlearn: `_GridGenerator(1, 2.0, …)` and `_GridGenerator(0, 2.0, …)` raise ZeroDivisionError. -/
+theorem grid_size_le_one_raises (na : List Bool) (f : Bool) (gs : Nat) (limit : Rat)
+    (rows : List (List Rat × List Rat)) (h : gs ≤ 1) :
+    grid na f gs limit rows = .error .zeroDiv ∧ gridFrom na f gs limit rows 0 = .error .zeroDiv := by
+  refine ⟨by rw [grid_def, nUnits_of_le_one na f gs h], ?_⟩
+  have h0 := lattice_length_pos na f 0
+  have hs : searchFrom na f gs (gs + 2) ((0 : Nat) : Int) = some 0 := by
+    rw [show gs + 2 = (gs + 1) + 1 from rfl, searchFrom]
+    simp only [Int.toNat_natCast, srcLattice_eq, enough_def]
+    have : decide (gs ≤ (lattice na f 0).length) = true := by simp; omega
+    simp [this]
+  rw [gridFrom_def, hs]; simp
+
+/-- TOTALISATION NOTE (not a property of the source): with `true_dim = 0` (one basis column, `force_L1_norm`) the
+    source raises ZeroDivisionError in `1.0 / true_dim` before the search starts (replayed:
+    `_GridGenerator(2, 2.0, 1 column, neg_allowed=[True], force_L1_norm=True)`), but the estimate is an INPUT of the
+    model, so `Grid.grid` answers with the two points `-2, 2`.  Every statement about the source's behaviour therefore
+    carries `1 ≤ trueDim`. -/
+theorem trueDim_zero_model_answers :
+    trueDim [true] true = 0 ∧
+    grid [true] true 2 2 [([1], [0]), ([0], [1])] = .ok (1, [[0, 2], [2, 0]]) := by
+  refine ⟨by decide, by decide +kernel⟩
+
+/-- **CLAUSE (a) IN ONE STATEMENT**, for the `while True` loop as the source runs it, started at ANY estimate `n0`
+    (whether or not the float root overshoots): with a free coordinate, `grid_size ≥ 2`, `grid_limit > 0` and bases
+    that are a unit basis with column sums ≤ 1, the generator succeeds with `n_units ≥ 1` and returns exactly
+    `grid_size` pairwise distinct multiplier vectors with non-negative entries and L1 norm at most `grid_limit`. -/
+theorem grid_clause_from_any_start (na : List Bool) (f : Bool) (gs : Nat) (limit : Rat) (hlim : 0 < limit)
+    (rows : List (List Rat × List Rat)) (n0 : Nat) (h : 1 ≤ trueDim na f) (hgs : 2 ≤ gs)
+    (hb : basisOK na.length rows = true) (hu : unitBasis na rows = true) :
+    ∃ n g, gridFrom na f gs limit rows n0 = .ok (n, g) ∧ 1 ≤ n ∧ g.length = gs ∧ g.Nodup ∧
+      (∀ lam ∈ g, ∀ x ∈ lam, 0 ≤ x) ∧ (∀ lam ∈ g, (lam.map (fun x => |x|)).sum ≤ limit) := by
+  obtain ⟨n1, g1, _, hn1, hnu, _⟩ := grid_exists na f gs limit rows h hgs
+  obtain ⟨nl, hn, hs⟩ := search_from_any_start na f gs n0 h
+  rw [hnu] at hn; cases hn
+  have hm : 1 ≤ max n0 n1 := by omega
+  have hpos : ¬ (((max n0 n1 : Nat) : Int) ≤ 0) := by omega
+  have hg : gridFrom na f gs limit rows n0 = .ok (max n0 n1, gridAt na f gs limit rows (max n0 n1)) := by
+    rw [gridFrom_def, hs]; simp only [hpos, if_false, Int.toNat_natCast]
+  obtain ⟨_, h1, hlen, hnn, hl1, hnd⟩ := overshoot_grid_still_valid na f gs limit hlim rows n0 _ _ h hb hg
+  exact ⟨_, _, hg, h1, hlen, hnd hu, hnn, hl1⟩
+
+/-- `Grid.select` (hence `fitLoop`) answers `none` in exactly two situations: no record at all (source: `min([])`
+    raises ValueError) or a record with an EMPTY gamma vector (source: pandas `max()` of an empty column is NaN; not
+    modelled).  In every other case `select_spec` applies: there is no default index. -/
+theorem select_eq_none_iff (cw : Rat) (recs : List (Rat × List Rat)) :
+    select cw recs = none ↔ recs = [] ∨ ∃ r ∈ recs, r.2 = [] := by
+  unfold select
+  cases hA : allSomeR (recs.map (fun r => tradeoff cw r.1 r.2)) with
+  | none =>
+    simp only [Option.bind_none, true_iff]
+    right
+    by_contra hc
+    have hs : (allSomeR (recs.map (fun r => tradeoff cw r.1 r.2))).isSome = true :=
+      (allSomeR_isSome_iff _).mpr (by
+        intro x hx
+        obtain ⟨r, hr, rfl⟩ := List.mem_map.mp hx
+        cases hg : r.2 with
+        | nil => exact absurd ⟨r, hr, hg⟩ hc
+        | cons g gs => rw [Grid.tradeoff_cons]; rfl)
+    rw [hA] at hs; simp at hs
+  | some l =>
+    simp only [Option.bind_some]
+    have hlen := allSomeR_length _ _ hA
+    have hall := allSomeR_spec _ _ hA
+    constructor
+    · intro hn
+      left
+      cases l with
+      | nil => exact List.eq_nil_of_length_eq_zero (by simpa using hlen.symm)
+      | cons x xs => simp [argminFirst] at hn
+    · rintro (rfl | ⟨r, hr, hg⟩)
+      · simp [allSomeR] at hA; subst hA; rfl
+      · exfalso
+        have : tradeoff cw r.1 r.2 ∈ l.map some := by
+          rw [← hall]; exact List.mem_map.mpr ⟨r, hr, rfl⟩
+        rw [hg] at this; simp [tradeoff] at this
+
+/-- `best_response_argmin` with the affine form of `F` required ONLY where the reduction identity provides it: on 0/1
+    labelings with one label per row. -/
+theorem best_response_argmin_hard (w : List Rat) (K c : Rat) (hc : 0 < c) (F : List Nat → Rat)
+    (hF : ∀ h, w.length = h.length → (∀ x ∈ h, x = 0 ∨ x = 1) → F h = K - c * dot w (toRat h))
+    (h h' : List Nat) (hl : w.length = h.length) (hl' : w.length = h'.length)
+    (hb : ∀ x ∈ h, x = 0 ∨ x = 1) (hb' : ∀ x ∈ h', x = 0 ∨ x = 1) :
+    weighted01 (relabel w) h ≤ weighted01 (relabel w) h' ↔ F h ≤ F h' := by
+  rw [best_response w h hl hb, best_response w h' hl' hb', hF h hl hb, hF h' hl' hb']
+  constructor
+  · intro hle
+    have : dot w (toRat h') ≤ dot w (toRat h) := by linarith
+    nlinarith
+  · intro hle
+    have : c * dot w (toRat h') ≤ c * dot w (toRat h) := by linarith
+    have := le_of_mul_le_mul_left this hc
+    linarith
+
+/-- `fit_predictor_minimises_lagrangian` with the same guarded hypothesis (this is the form the real
+    `error + λ·γ` satisfies: `C09.fit_predictor_minimises_real_lagrangian` in C09X.lean). -/
+theorem fit_predictor_minimises_lagrangian_hard (learner : List (Nat × Rat) → List Nat) (H : List Nat → Prop)
+    (w : List Rat) (K c : Rat) (hc : 0 < c) (F : List Nat → Rat)
+    (hF : ∀ h, w.length = h.length → (∀ x ∈ h, x = 0 ∨ x = 1) → F h = K - c * dot w (toRat h))
+    (hex : ∀ h', H h' → weighted01 (relabel w) (learner (relabel w)) ≤ weighted01 (relabel w) h')
+    (hshape : (learner (relabel w)).length = w.length ∧ ∀ x ∈ learner (relabel w), x = 0 ∨ x = 1)
+    (hH : ∀ h', H h' → w.length = h'.length ∧ ∀ x ∈ h', x = 0 ∨ x = 1) :
+    ∀ h', H h' → F (trainAt learner (relabel w)) ≤ F h' := by
+  intro h' hh'
+  obtain ⟨hl, hb⟩ := trainAt_shape learner w hshape
+  obtain ⟨hl', hb'⟩ := hH h' hh'
+  exact (best_response_argmin_hard w K c hc F hF _ h' hl.symm hl' hb hb').mp
+    (trainAt_minimises learner H w hex h' hh')
+
+/-- Why the guard matters: the plain 0/1 error of a one-row data set with label 1 (`F h = 0` iff `h = [1]`) is NOT
+    of the form `K − c·Σ wᵢhᵢ` on all lists of naturals, so the unguarded hypothesis `hF` of `best_response_argmin` /
+    `fit_predictor_minimises_lagrangian` cannot be met by it. -/
+theorem affine_everywhere_excludes_zero_one_error :
+    ¬ ∃ (K c : Rat) (w : List Rat), ∀ h : List Nat,
+        (if h = [1] then (0 : Rat) else 1) = K - c * dot w (toRat h) := by
+  rintro ⟨K, c, w, hF⟩
+  have h0 := hF [0]; have h1 := hF [1]; have h2 := hF [2]
+  cases w with
+  | nil => simp [toRat] at h0 h1; linarith
+  | cons a w => simp [toRat] at h0 h1 h2; linarith
+
+/-- a concrete "exact cost-sensitive learner": predict the relabelled target.  It meets the hypothesis `hex` of
+    `fit_spec` / `fit_predictor_minimises_lagrangian(_hard)` for EVERY weight vector and every class. -/
+def xLearner : List (Nat × Rat) → List Nat := fun d => d.map (·.1)
+
+theorem xLearner_exact (w : List Rat) (h' : List Nat) :
+    weighted01 (relabel w) (xLearner (relabel w)) ≤ weighted01 (relabel w) h' := by
+  rw [xLearner, weighted01_self]; exact weighted01_nonneg _ _ (relabel_weights_nonneg w)
+
+theorem xLearner_shape (w : List Rat) :
+    (xLearner (relabel w)).length = w.length ∧ ∀ x ∈ xLearner (relabel w), x = 0 ∨ x = 1 := by
+  refine ⟨by simp [xLearner, relabel_length], ?_⟩
+  intro x hx
+  obtain ⟨p, hp, rfl⟩ := List.mem_map.mp hx
+  exact relabel_labels_binary w p hp
+
+/-- WHERE FINDING F12 SITS IN THE MODEL (totalisation note): when every combined signed weight is exactly 0 (constraint
+    weights cancel the objective weights on all rows) the relabelled data has the single label 0 and all sample weights
+    0, the lifted dummy rule fires, and the model trains the constant-0 predictor.  The source takes the same branch but
+    sklearn's `DummyClassifier.fit` rejects an all-zero `sample_weight` with ValueError (replayed:
+    corpus/C09/f12-all-signed-weights-zero.json) — an error the model does not have; `fit_spec` and the best-response
+    theorems describe the model's answer there, not an answer of the source. -/
+theorem all_zero_weights_take_dummy_branch (learner : List (Nat × Rat) → List Nat) (w : List Rat) (hne : w ≠ [])
+    (hz : ∀ x ∈ w, x = 0) :
+    GridSrc.useDummy (nUnique (relabel w) : Nat) = true ∧
+    trainAt learner (relabel w) = List.replicate w.length 0 ∧ ∀ p ∈ relabel w, p.2 = 0 := by
+  have hl := labels_all_zero w hz
+  obtain ⟨n, hn⟩ : ∃ n, w.length = n + 1 := by
+    cases w with
+    | nil => exact absurd rfl hne
+    | cons a l => exact ⟨l.length, rfl⟩
+  have hu : nUnique (relabel w) = 1 := by
+    unfold nUnique; rw [hl, hn, eraseDups_replicate_succ]; rfl
+  have hd : GridSrc.useDummy (nUnique (relabel w) : Nat) = true := by rw [hu]; decide
+  refine ⟨hd, ?_, ?_⟩
+  · unfold trainAt
+    rw [if_pos hd, hl, hn]
+    simp [List.replicate_succ, relabel_length, hn]
+  · intro p hp
+    rw [relabel_def] at hp
+    obtain ⟨x, hx, rfl⟩ := List.mem_map.mp hp
+    simp [hz x hx]
+
+/-! ### lifted definitions that no model function consumes: tied by a theorem each (review R3) -/
+
+/-- `if n_units < 0: n_units = 0` (lifted `GridSrc.estClip`): the start of the search is a natural number and the
+    clip changes nothing on non-negative estimates — this is what lets `searchFrom` / `gridFrom` take `n0 : Nat`. -/
+theorem estimate_clip_spec (n : Int) :
+    0 ≤ GridSrc.estClip n ∧ (0 ≤ n → GridSrc.estClip n = n) ∧ (n < 0 → GridSrc.estClip n = 0) := by
+  unfold GridSrc.estClip
+  by_cases h : n < 0 <;> simp [h] <;> omega
+
+/-- `grid_offset=None` (lifted `GridSrc.defaultOffset`, a Series of zeros over the constraint index) leaves every
+    multiplier vector unchanged: for the default call `lambda_vecs_` ARE the vectors clause (a) talks about. -/
+theorem default_offset_identity (g : List (List Rat)) (k : Nat) (hl : ∀ lam ∈ g, lam.length = k) :
+    addOffset (List.replicate k GridSrc.defaultOffset) g = g := by
+  unfold addOffset
+  conv_rhs => rw [← List.map_id g]
+  apply List.map_congr_left
+  intro lam hlam
+  rw [← hl lam hlam]
+  exact zipWith_withOffset_default lam
+
+/-- the attribute `self.objective_weight` (lifted `GridSrc.objectiveWeight`, `1.0 - constraint_weight`) is the weight
+    the lifted `loss_fct` puts on the objective, in either spelling of the source. -/
+theorem loss_objective_weight (cw obj g : Rat) :
+    GridSrc.loss cw obj g = GridSrc.objectiveWeight cw * obj + cw * g := by
+  simp [GridSrc.loss, GridSrc.objectiveWeight]
 
 /-! Non-vacuity: concrete inputs evaluated by the kernel. -/
 example : lattice [true, false] false 1 = [[-1, 0], [0, 0], [0, 1], [1, 0]] := by decide +kernel
@@ -583,5 +828,51 @@ example : trainAt (fun _ => [1, 0, 1]) (relabel [-1, -2, 0]) = [0, 0, 0] ∧
     trainAt (fun _ => [1, 0, 1]) (relabel [-1, 2, 0]) = [1, 0, 1] := by decide +kernel
 example : select (1/2) [(1/4, [-1/8, 1/8]), (0, [1/2]), (1/8, [1/8, 0])] = some 2 := by decide +kernel
 example : (lattice [true, true] false 1).take 2 = [[-1, 0], [0, -1]] := by decide +kernel
+
+/-! Joint non-vacuity (review R3): all hypotheses of a theorem at once, on the interesting branch. -/
+/-- `grid_nonneg`, `grid_l1_le_limit`, `grid_distinct`, `grid_offset_distinct`, `zero_lambda_mem_grid_iff`, `grid_length`,
+    `grid_mem`: DemographicParity with 3 groups (two free coordinates, both signs), 4 of the 5 points of radius 1 -/
+example : grid [true, true] false 4 2 dpRows = .ok (1,
+      [[0, 0, 0, 2, 0, 0], [0, 0, 0, 0, 2, 0], [0, 0, 0, 0, 0, 0], [0, 2, 0, 0, 0, 0]]) ∧
+    (0 : Rat) < 2 ∧ unitBasis [true, true] dpRows = true ∧ basisOK [true, true].length dpRows = true ∧
+    ([1/4, 0, 0, 1/2, 0, 0] : List Rat).length = dpRows.length := by
+  refine ⟨by decide +kernel, by norm_num, by decide +kernel, by decide +kernel, by decide +kernel⟩
+/-- `grid_clause_from_any_start`, `grid_exists`, `search_from_any_start`, `overshoot_grid_still_valid`,
+    `estimate_harmless`: every hypothesis holds for that moment; started at the exact estimate 0 the loop stops at the
+    least radius 1, started at an overshooting 3 it stops at 3 and still returns 4 vectors -/
+example : 1 ≤ trueDim [true, true] false ∧ 2 ≤ 4 ∧ (0 : Rat) < 2 ∧ basisOK [true, true].length dpRows = true ∧
+    unitBasis [true, true] dpRows = true ∧
+    GridSrc.noOvershoot 4 (negCount [true, true]) (trueDim [true, true] false) 0 = true ∧
+    GridSrc.noOvershoot 4 (negCount [true, true]) (trueDim [true, true] false) 3 = false ∧
+    (gridFrom [true, true] false 4 2 dpRows 0).toOption.map (fun p => (p.1, p.2.length)) = some (1, 4) ∧
+    (gridFrom [true, true] false 4 2 dpRows 3).toOption.map (fun p => (p.1, p.2.length)) = some (3, 4) := by
+  refine ⟨by decide, by decide, by norm_num, by decide +kernel, by decide +kernel, by decide +kernel,
+    by decide +kernel, by decide +kernel, by decide +kernel⟩
+/-- BoundedGroupLoss with 3 groups (3 non-negative coordinates, L1 norm forced): hypotheses of
+    `forced_grid_l1_eq_limit` / `forced_grid_excludes_zero`; 6 vectors, each of L1 norm exactly 3 -/
+def bglRows : List (List Rat × List Rat) :=
+  [([1, 0, 0], [0, 0, 0]), ([0, 1, 0], [0, 0, 0]), ([0, 0, 1], [0, 0, 0])]
+example : ([false, false, false] : List Bool) ≠ [] ∧ (0 : Rat) < 3 ∧ unitBasis [false, false, false] bglRows = true ∧
+    basisOK [false, false, false].length bglRows = true ∧
+    (grid [false, false, false] true 6 3 bglRows).toOption.map (fun p => (p.1, p.2.map List.sum)) =
+      some (2, [3, 3, 3, 3, 3, 3]) := by
+  refine ⟨by decide, by norm_num, by decide +kernel, by decide +kernel, by decide +kernel⟩
+/-- error branch: grid_size 1 -/
+example : grid [true, true] false 1 2 dpRows = .error .zeroDiv := (grid_size_le_one_raises _ _ 1 _ _ (by decide)).1
+/-- `select_spec` / `argminFirst_spec` with a TIE (indices 1 and 3 have the same loss: the first is returned), and
+    the two `none` situations of `select_eq_none_iff` -/
+example : select (1/2) [(1/2, [0, 1/4]), (1/4, [1/4]), (1/2, [1/2]), (1/4, [1/4, 0])] = some 1 ∧
+    select (1/2) [] = none ∧ select (1/2) [(1/4, [])] = none := by decide +kernel
+/-- `fit_spec`: a real run of the loop (two grid points, the exact learner `xLearner`; the second point takes the
+    DummyClassifier branch: all combined weights ≤ 0 … the relabelled data has the single label 0) -/
+example : (fitLoop false (fun lam => lam) [0, 0, 0, 0] xLearner
+      (fun p => ((p.map (fun x => if x = 1 then (1 : Rat) / 4 else 0)).sum)) (fun p => [(p.sum : Rat) / 4, -(p.sum : Rat) / 4])
+      (1/2) [[1, 1, -1, -1], [-1, -1, -1, -1/2]]).map (fun o => (o.preds, o.objectives, o.gammas, o.best)) =
+    some ([[1, 1, 0, 0], [0, 0, 0, 0]], [1/2, 0], [[1/2, -1/2], [0, 0]], 1) := by decide +kernel
+/-- `predict_delegates`: in range -/
+example : predictWith (fun (p : List Nat) => p.sum) [[1, 1, 0, 0], [0, 0, 0, 1]] 1 = some 1 := by decide +kernel
+/-- `all_zero_weights_take_dummy_branch`: the F12 shape (constraint weights cancel the objective weights on every row) -/
+example : combineWeights false [1, -1, 1, -1] [-1, 1, -1, 1] = [0, 0, 0, 0] ∧
+    trainAt xLearner (relabel [0, 0, 0, 0]) = [0, 0, 0, 0] ∧ ([0, 0, 0, 0] : List Rat) ≠ [] := by decide +kernel
 
 end C09
